@@ -37,10 +37,22 @@ import (
 //	vote <signers> <id> <addr>                           consensus_vote.CheckVotes
 //	deposit <signers> <relayer> <chain> <height> <extra> <vote id> <cross chain id|none>   VoteHandler.MakeDepositProposal
 //	sig <signers> <addr> <chainid> <subject> <sig> <sha256(subject)>   signature_manager.AddSignature
+//	dry <op...>                                          pre-execute the op (nothing committed) -> `dry <outcome>`
 //	dump                                                 full canonical state
 //
 // Outcome: `ok:<ret> <events|-> <digest>` | `err <digest>` | `panic`; digest = first 6 bytes of SHA-256 of the canonical state.
 func (w *world) exec(r *hx.Run, op []string) (res string) {
+	// dry <op...>: the transaction is pre-executed (NativeService with preExec, as PreExecuteContract does) on a
+	// throw-away cache and nothing is committed; whatever it did must be invisible to every later transaction
+	if len(op) > 1 && op[0] == "dry" {
+		switch op[1] {
+		case "key", "height", "dump", "dry", "admit", "refresh", "restart":
+			return "bad-op"
+		}
+		w.dry = true
+		defer func() { w.dry = false }()
+		return "dry " + w.exec(r, op[1:])
+	}
 	defer func() {
 		if e := recover(); e != nil {
 			// a panicking handler commits nothing
@@ -363,6 +375,12 @@ func (w *world) exec(r *hx.Run, op []string) (res string) {
 	}
 	w.cur = nil
 	post := w.now()
+	if w.dry {
+		if post.text() != pre.text() {
+			r.Viol("C15:pre-execution-changed-state", "a pre-executed transaction changed the committed contract state")
+		}
+		return cr.line(digest(post.text()))
+	}
 	w.sh.after(r, w, op, pre, post, cr)
 	if cr.err {
 		r.Hist("outcome.err")
